@@ -466,7 +466,7 @@ Lemma run_steps_woken now m k st r a iv arr dr nid lg mail :
   run_steps now m k (st :: r) (Some a) iv dr nid lg mail =
   run_steps now m k r None (iv_after a iv) (aw_done now a dr) nid (lg ++ aw_rec a iv arr) mail.
 Proof.
-  intros Hk Hh Hw Hrb Hnw. destruct a as [s|v dl|biased tie sa sb| | | | |rearm d3 s sx|pre s]; try contradiction.
+  intros Hk Hh Hw Hrb Hnw. destruct a as [s|v dl|biased tie sa sb| | | | |rearm d3 s sx|pre s|kr chi cho]; try contradiction.
   - cbn [aw_wake] in Hw. cbn [run_steps poll_aw poll_aw0 fst snd aw_done aw_rec iv_after]. unfold sleep_poll.
     replace (now <? deadline s) with false by lia. rewrite Hw. reflexivity.
   - destruct v as [s| |ch|]; try contradiction; [|discriminate Hnw]. cbn [aw_wake] in Hw. cbn [aw_held held_sleeps] in Hh.
@@ -531,7 +531,7 @@ Lemma run_steps_reblock now m k st r a a' iv dr nid lg mail :
   run_steps now m k (st :: r) (Some a) iv dr nid lg mail =
   (st :: r, Some a', iv, register (sid s') (deadline s') (aw_done now a dr), nid, lg, false, mail).
 Proof.
-  intros Hk Hh Hw Hrb. destruct a as [s|v dl| | | | | |rearm d3 s sx|pre s]; try discriminate.
+  intros Hk Hh Hw Hrb. destruct a as [s|v dl| | | | | |rearm d3 s sx|pre s|kr chi cho]; try discriminate.
   destruct rearm; [|discriminate]. cbn [aw_reblock] in Hrb.
   destruct (deadline s <=? now) eqn:E; [discriminate|]. destruct (now <? dl now d3) eqn:E3; [|discriminate]. injection Hrb as <-.
   exists [now; 1], (reg (sid s) (dl now d3)). split; [reflexivity|].
@@ -570,7 +570,7 @@ Lemma prep_drv_spec now nid rcv st dr : frag_step2 rcv st -> Mid now dr -> fresh
   acts now dr (prep_drv now nid st dr) /\ forall x, ents_at x (pending (prep_drv now nid st dr)) = ents_at x (pending dr).
 Proof.
   intros Hst Hm Hf. pose proof (mid_sorted _ _ Hm) as Hs.
-  destruct st as [d|t|d v|biased a b| | | |polled d1 d2|d| | | | | |rearm d0 d2 x d3| ]; try contradiction; cbn [frag_step2 frag_step] in Hst; cbn [prep_drv]; try (split; [apply acts_refl|reflexivity]).
+  destruct st as [d|t|d v|biased a b| | | |polled d1 d2|d| | | | | |rearm d0 d2 x d3| | ]; try contradiction; cbn [frag_step2 frag_step] in Hst; cbn [prep_drv]; try (split; [apply acts_refl|reflexivity]).
   - destruct v as [x|]; [|contradiction].
     destruct ((now <? now + x) && negb (now <? dl now d)) eqn:E; [|split; [apply acts_refl|reflexivity]].
     split.
@@ -835,7 +835,7 @@ Proof.
        (let '(o, b, n, d', ml) := frag_run now nid' m k iv r dr' mail in (pre ++ o, b, n, d', ml))).
   { intros nid' dr' pre Hn Ha Hm' He Hlog Htime Hiv Harr Hown.
     apply (Hpass nid' dr' pre iv mail arr []); try assumption; [intros id H; right; exact H|apply mail_ok_refl]. }
-  destruct st as [d|t|d v|biased a b|p bh| | |polled d1 d2|d| |ch d|ch|d ch|rf ch d|rearm d0 d2 x d3|wf d];
+  destruct st as [d|t|d v|biased a b|p bh| | |polled d1 d2|d| |ch d|ch|d ch|rf ch d|rearm d0 d2 x d3|wf d|wr chi cho];
     cbn [frag_step2 frag_step] in Hst; try contradiction; cbn [frag_run].
   - (* sleep *)
     cbn [dl_of]. destruct (now <? now + d) eqn:E.
